@@ -383,6 +383,10 @@ pub fn c17(ctx: &mut Ctx) {
 pub fn warm_up() {
     let d = json!({"a": 1, "b": [1, 2], "s": "xy"});
     let _ = observe::call(&json!({"log": "warm-up"}), &Value::Null);
+    if std::env::var("JL_NARROW_WARMUP").is_ok() {
+        // experiment switch (never set by the checks): the warm-up as it was before the third session
+        return;
+    }
     for op in all_ops() {
         let valid: Value = match op {
             "var" => json!({"var": "b.0"}),
